@@ -25,6 +25,8 @@ from . import build as buildmod
 from .executor import Executor
 
 VERIF = buildmod.VERIF
+# where evidence and replay files go (mutation experiments redirect them away from /verif)
+OUT = os.environ.get("VERIF_OUT", VERIF)
 DEFAULT_SEED = 20260926
 NWORKERS = int(os.environ.get("VERIF_WORKERS", "16"))
 
@@ -194,7 +196,7 @@ def confirm(mod, ctx, text, times=3):
 
 
 def write_replay(prop_id, text, out):
-    d = os.path.join(VERIF, "replays", prop_id)
+    d = os.path.join(OUT, "replays", prop_id)
     os.makedirs(d, exist_ok=True)
     name = hashlib.sha1(text.encode()).hexdigest()[:12] + ".case"
     p = os.path.join(d, name)
@@ -347,8 +349,8 @@ def run_check(prop_id, tier):
         "wall_s": round(time.time() - t0, 2),
         "violations": len(vlines),
     }
-    os.makedirs(os.path.join(VERIF, "evidence"), exist_ok=True)
-    with open(os.path.join(VERIF, "evidence", "%s.json" % prop_id), "w") as fh:
+    os.makedirs(os.path.join(OUT, "evidence"), exist_ok=True)
+    with open(os.path.join(OUT, "evidence", "%s.json" % prop_id), "w") as fh:
         json.dump(ev, fh, indent=1, sort_keys=True)
         fh.write("\n")
     print("%s %s: %d cases, %d distinct non-trivial, %d known-finding hits, %d violations, %.1fs"
